@@ -596,7 +596,14 @@ class HierarchyElement(DiagLayer):
         # determine the set of applicable communication parameters
         cps = [cp for cp in self.comparam_refs if cp.short_name == cp_short_name]
         if protocol_name is not None:
-            cps = [cp for cp in cps if cp.protocol_snref in (None, protocol_name)]
+            # use the communication parameters which are specific to
+            # the protocol if possible. The ones which do not specify
+            # a protocol are used as the fallback
+            protocol_specific_cps = [cp for cp in cps if cp.protocol_snref == protocol_name]
+            if protocol_specific_cps:
+                cps = protocol_specific_cps
+            else:
+                cps = [cp for cp in cps if cp.protocol_snref is None]
 
         if len(cps) > 1:
             warnings.warn(
